@@ -690,6 +690,44 @@ func c16Flow(c *Ctx) {
 		c.check(okV, "C16.5", "Install:ValidatePath-before-walk", L.pos(w.instr.Pos()), "the base path is validated (not a regular file) before anything is installed", "ValidatePath dominates WalkDir, error edge cannot reach it")
 	}
 
+	// C16.6 success only after the whole walk: every success return of Install is dominated by the checked WalkDir call
+	// (no "already installed" shortcut that skips files)
+	ruleInstallWalksBeforeSuccess(c, "C16.6", install)
+
+	// C16.7 nothing outside the installation directory is modified: the mutator-ownership rule of C15.3 (every filesystem
+	// mutator of the package takes the target directory, the temporary name or - Rename only - the destination) is also the
+	// necessary condition of "only <base>/kessoku-di is written"
+	{
+		sub := &Ctx{Prop: c.Prop, Tier: c.Tier, L: c.L, FuncsSeen: c.FuncsSeen, Extra: map[string]any{}, RoleNames: c.RoleNames}
+		runC15(sub)
+		for _, o := range sub.Obls {
+			if o.Rule == "C15.3" {
+				o.Rule = "C16.7"
+				c.Obls = append(c.Obls, o)
+			}
+		}
+		for _, f := range sub.Finds {
+			if f.Rule == "C15.3" {
+				f.Rule = "C16.7"
+				f.Property = c.Prop
+				c.Finds = append(c.Finds, f)
+			}
+		}
+	}
+	// C16.8 a base that is a symbolic link to a directory is a directory: path validation follows links (no Lstat)
+	nStat := 0
+	for _, fn := range llmFuncs(L) {
+		for _, cs := range callsIn(fn) {
+			if cs.callee == "os.Stat" {
+				nStat++
+			}
+			if cs.callee == "os.Lstat" {
+				c.fail("C16.8", fnName(fn)+":os.Lstat", L.pos(cs.instr.Pos()), "the installer inspects a path without following symbolic links: a base directory reached through a link would be treated as a file")
+			}
+		}
+	}
+	c.floor("C16.8", "os.Stat calls in internal/llmsetup", nStat, 1)
+
 	// Run passes its own flags
 	if run := L.fn(llmPkg, "(*AgentCmd).Run"); run != nil {
 		c.seen(fnName(run))
